@@ -723,6 +723,10 @@ def run(ctx):
                      bystander=[(k_, bystander[k_]) for k_ in bystander.keys()])
             break
         t.case(key=str(ops), sample=ops if len(ops) > 4 else None)
+    if not t.fail:
+        # sizes no small example reaches (hundreds / thousands of fields, dumps beyond every buffer size): same statement
+        from props import C02 as _c02
+        _c02.large_instances(real, t)
     t.done()
     ctx.level = "other"
     ctx.explanation = ("PROVED from the AST of the real debian._util (array heap for nodes, ghost node sequence + position map, "
